@@ -404,6 +404,11 @@ class Run:
             json.dump(obj, f, indent=1, default=repr)
         self.violations.append((what, path, nofail))
 
+    def concrete(self):
+        """violations that come with a failing input (a broken proof or correspondence alone is not one: the
+        search for a failing input goes on after it)"""
+        return [v for v in self.violations if not v[2]]
+
     def run_findings(self):
         """Witnesses of fixed / known findings of this property run first."""
         from harness import findings
